@@ -308,6 +308,8 @@ func c11Run(c *core.Ctx) {
 		c.Sample(map[string]interface{}{"scenario": sc, "explorations": []string{"bound 1 over " + c11Full.Name, "bound 2 over " + c11Coarse.Name}})
 		c.Nontrivial(sc.Name)
 	}
+	// the command-line tool itself: walker, GOMAXPROCS parser workers and the printer goroutine under every schedule
+	cliExplore(c, "C11", [][]string{{"-d", "-p", "-e", "-r"}, {"-pb", "-p", "-e"}, {"-p", "-r"}}, []string{"7.4", "5.6"}, cliConfigs(c.Thorough(), true))
 	tiny := c11Scenario{"three pipelines (short)", []c11Job{{"<?php <<<A\nA;\n", "7.2"}, {"<?php new Y;", "5.6"}, {"<?php 1 +;", "7.4"}}, false}
 	c11Explore(c, tiny, c11Coarse, 2)
 	c.Nontrivial(tiny.Name)
@@ -424,7 +426,7 @@ func init() {
 			"Oracle: every observation of every pipeline (tree with tokens and positions, printed bytes, dump text, error list, sorted resolved names, input buffer) equals its sequential baseline in every schedule; two sequential runs agree. states = schedules executed, transitions = scheduling decisions taken; distinct outcome vectors per scenario must be 1. Plus sequential histories: every sequence of <= 3 pipelines over 18 programs (errors at the start/end of input, unterminated constructs, both families) — the last result must equal the result of that pipeline alone in a fresh process. A free-running -race pass over the same pipelines complements this (sampling, never deciding).",
 		Assume: []string{"interference finer than the yield points is left to the race detector pass"},
 		Run:    c11Run,
-		Replay: c11Replay,
+		Replay: withCLIReplay(c11Replay),
 	})
 	_ = version.Version{}
 }
